@@ -1,24 +1,23 @@
----- MODULE MC_C06_quick_a_evi ----
+---- MODULE MC_C15_quick_c_norm3 ----
 EXTENDS CircuitSys
-c_Dom == <<2, 3>>
+c_Dom == <<2, 2, 2>>
 c_KSet == {1, 2}
 c_MaxK == 8
-c_MaxL == 4
-c_MaxIn == 2
-c_InKindSeq == <<"emb", "catp", "catl">>
+c_MaxL == 5
+c_MaxIn == 3
+c_InKindSeq == <<"catp">>
 c_InnerKinds == {"had", "kron", "mix", "sum"}
-c_MaxAr == 2
+c_MaxAr == 3
 c_FreeOrder == FALSE
-c_MaxOuts == 2
+c_MaxOuts == 1
 c_MaxBases == 1
-c_MaxOps == 1
-c_OpSet == {"evidence"}
-c_Scheme == 1
+c_MaxOps == 0
+c_OpSet == {}
+c_Scheme == 4
 c_OnlySD == TRUE
 c_PolyDeg == 1
 c_DiffK == {1}
 c_MaxDeg == 2
-c_EvExp == 0
 c_Invalid == FALSE
 c_MaxHist == 0
 c_RunActs == {"eval", "update"}
@@ -26,9 +25,8 @@ c_NVer == 2
 c_GradMod == 0
 c_QueryOn == FALSE
 c_J == 1
-c_EmitOps == {1}
-c_EmitMod == 100
+c_EmitOps == {0}
+c_EmitMod == 40
 c_EmitRes == 0
-c_EmitSmall == 2
-c_EmitFilter == "all"
+c_EmitSmall == 0
 ====
